@@ -827,3 +827,64 @@ Fixpoint cs_domains (cs : config_space) : list (domain * option domain) :=
   | (_, EDom d) :: r => (d, None) :: cs_domains r
   | (_, EConst _) :: r => cs_domains r
   end.
+
+(* ---- Domain.sample(size = k), random_config, random_configs ----------------------------------- *)
+(* one raw draw per sampled value (numpy draws a vector of k values; k >= 1) *)
+Fixpoint sample_all (sc_log sc_rev : scaling) (d : domain) (rs : list raw) : option (list val) :=
+  match rs with
+  | [] => Some []
+  | r :: rs' =>
+      match dom_sample sc_log sc_rev d r, sample_all sc_log sc_rev d rs' with
+      | Some v, Some l => Some (v :: l)
+      | _, _ => None
+      end
+  end.
+(* the result of sample(size): the bare value for size == 1, a list of `size` values otherwise
+   (_sanitize_sample_result; the Quantized wrapper, OrdinalNearestNeighbor and FiniteRange do the same) *)
+Inductive sample_result := SOne (v : val) | SMany (l : list val).
+Definition dom_sample_size (sc_log sc_rev : scaling) (d : domain) (rs : list raw) : option sample_result :=
+  match sample_all sc_log sc_rev d rs with
+  | Some [v] => Some (SOne v)
+  | Some l => Some (SMany l)
+  | None => None
+  end.
+
+(* _config_space_for_sampling = dict(config_space, **active_config_space): the active domain where
+   one is given *)
+Definition sampling_domain (p : domain * option domain) : domain :=
+  match snd p with Some a => a | None => fst p end.
+(* _random_config: one sample(size=1) per hyperparameter, in the order of the space *)
+Fixpoint random_config_go (sc_log sc_rev : scaling) (ds : list (domain * option domain)) (rs : list raw)
+  : option (list val) :=
+  match ds, rs with
+  | [], [] => Some []
+  | p :: ds', r :: rs' =>
+      match dom_sample sc_log sc_rev (sampling_domain p) r, random_config_go sc_log sc_rev ds' rs' with
+      | Some v, Some l => Some (v :: l)
+      | _, _ => None
+      end
+  | _, _ => None
+  end.
+(* _transform_config: config[name_last_pos] = value_for_last_pos; [fixed] = (position, value) *)
+Fixpoint set_nth (xs : list val) (i : nat) (x : val) : list val :=
+  match xs, i with
+  | [], _ => []
+  | _ :: r, O => x :: r
+  | y :: r, S j => y :: set_nth r j x
+  end.
+Definition transform_config (fixed : option (nat * val)) (xs : list val) : list val :=
+  match fixed with Some (i, x) => set_nth xs i x | None => xs end.
+Definition random_config (sc_log sc_rev : scaling) (ds : list (domain * option domain))
+           (fixed : option (nat * val)) (rs : list raw) : option (list val) :=
+  option_map (transform_config fixed) (random_config_go sc_log sc_rev ds rs).
+(* random_configs(random_state, num_configs): num_configs successive random_config draws *)
+Fixpoint random_configs (sc_log sc_rev : scaling) (ds : list (domain * option domain))
+         (fixed : option (nat * val)) (rss : list (list raw)) : option (list (list val)) :=
+  match rss with
+  | [] => Some []
+  | rs :: rss' =>
+      match random_config sc_log sc_rev ds fixed rs, random_configs sc_log sc_rev ds fixed rss' with
+      | Some c, Some l => Some (c :: l)
+      | _, _ => None
+      end
+  end.
